@@ -21,7 +21,7 @@ import (
 )
 
 type sop struct {
-	kind  string // open add addempty addbad compactall expire close read clean addmulti compact
+	kind  string // open add addempty addbad compactall expire close read clean addmulti compact commitempty
 	tx    int    // transaction id for add
 	auto  bool
 	same  bool // addmulti: the second table claims the same update index as the first (must be refused)
@@ -31,6 +31,9 @@ type sop struct {
 
 func (o sop) String() string {
 	switch o.kind {
+	case "commitempty":
+		// NewAddition / Add(nothing) / Commit WITHOUT Close: for the protocol it is an empty Add
+		return "addempty"
 	case "add":
 		return fmt.Sprintf("%s(%d,%d)", o.kind, o.tx, b2i(o.auto))
 	case "addmulti":
@@ -266,7 +269,7 @@ func (e *sexec) runHandle(h *shandle) {
 				} else {
 					h.st = st
 				}
-			case "add", "addempty", "addbad", "addmulti":
+			case "add", "addempty", "addbad", "addmulti", "commitempty":
 				if h.st == nil {
 					res = "nostack"
 					return
@@ -293,6 +296,23 @@ func (e *sexec) runHandle(h *shandle) {
 					}
 				case "addempty":
 					err = h.st.Add(func(w *reftable.Writer) error { return nil })
+				case "commitempty":
+					// the Addition API step by step; a successful Commit releases the lock by itself
+					var tr *reftable.Addition
+					tr, err = h.st.NewAddition()
+					if err == nil {
+						err = tr.Add(func(w *reftable.Writer) error { return nil })
+						if err == nil {
+							err = tr.Commit()
+						}
+						if err != nil {
+							tr.Close()
+						}
+					}
+					if err == reftable.ErrLockFailure {
+						// what Stack.Add does on a lock failure
+						reftable.VerifReload(h.st)
+					}
 				case "addbad":
 					err = h.st.Add(func(w *reftable.Writer) error { return fmt.Errorf("callback failed") })
 				}
